@@ -23,14 +23,23 @@ class Engine:
     def __init__(self, binary):
         self.binary = binary
         self.p = None
+        self.procs = {}
 
-    def start(self):
-        self.p = subprocess.Popen([self.binary, "--server"], stdin=subprocess.PIPE, stdout=subprocess.PIPE,
-                                  stderr=subprocess.DEVNULL, text=True, bufsize=1)
+    def start(self, early=False):
+        # early: the case runs from a constructor that precedes the library's own constructors ("cfg early 1": first use of the library before it
+        # initialised itself, as from another shared object's constructor)
+        env = dict(os.environ)
+        env.pop("DSCHED_EARLY", None)
+        if early:
+            env["DSCHED_EARLY"] = "1"
+        self.procs[early] = subprocess.Popen([self.binary, "--server"], stdin=subprocess.PIPE, stdout=subprocess.PIPE,
+                                             stderr=subprocess.DEVNULL, text=True, bufsize=1, env=env)
 
     def run(self, text):
-        if self.p is None or self.p.poll() is not None:
-            self.start()
+        early = "\ncfg early 1\n" in text
+        if self.procs.get(early) is None or self.procs[early].poll() is not None:
+            self.start(early)
+        self.p = self.procs[early]
         try:
             self.p.stdin.write(text)
             if not text.endswith("\n"):
@@ -47,15 +56,17 @@ class Engine:
             except Exception:
                 pass
             self.p = None
+            self.procs[early] = None
             return {"status": "engine_error", "flags": 0, "steps": 0, "threads": 0, "msg": repr(e), "stderr": ""}
 
     def close(self):
-        if self.p:
-            try:
-                self.p.stdin.close()
-                self.p.wait(timeout=5)
-            except Exception:
-                self.p.kill()
+        for p in self.procs.values():
+            if p:
+                try:
+                    p.stdin.close()
+                    p.wait(timeout=5)
+                except Exception:
+                    p.kill()
 
 
 def digest(text):
@@ -271,6 +282,14 @@ def aggregate(mod, tier, seed, results, wall_s, binary):
         print("VIOLATION property=%s replay=%s" % (pid, path))
         print("  " + v["msg"][:600])
         rc = 1
+    # a failure that did not reproduce is not reported as a violation (the engine is deterministic: it points at the engine or the machine, e.g. memory
+    # pressure); the case is kept for triage
+    for v in nonrepro[:3]:
+        path = os.path.join(rdir, "%s-nonrepro-%s.case" % (pid, digest(v["case"])))
+        with open(path, "w") as f:
+            f.write(v["case"] if v["case"].endswith("\n") else v["case"] + "\n")
+            f.write("# not reproduced (%d of 3): %s | %s\n" % (v.get("reproduced", 0), v["msg"].replace("\n", " ")[:600], json.dumps(v.get("res", {}))[:1500].replace("\n", " ")))
+        print("note: a failure did not reproduce, kept for triage: %s" % path)
     ev = {
         "property_id": pid, "tier": tier, "seed": int(seed), "level": "exploration",
         "coverage": {
